@@ -111,17 +111,17 @@ Definition ralloc (bytes : Z) : R unit :=
 
 Definition swapb (bs : list Z) : list Z := if swp then rev bs else bs.
 
-(* fread(buf, 1, n, f) != n  ->  SBDF_ERROR_IO.  (split_at walks only the n bytes it takes: the
+(* fread(buf, 1, n, f) != n  ->  SBDF_ERROR_IO.  (take_z walks only the n bytes it takes: the
    model is run on files of a megabyte, so no primitive may measure the whole remaining stream) *)
 Definition fread_bytes (n : Z) : R (list Z) := fun s =>
   if n <? 0 then Err SBDF_ERROR_IO else
-  match split_at (Z.to_nat n) s with
+  match take_z s n with
   | Some (a, t) => Ok (a, t)
   | None => Err SBDF_ERROR_IO
   end.
 
 Definition fseek_cur (k : Z) : R unit := fun s =>
-  if k <? 0 then Err SBDF_ERROR_IO else Ok (tt, zdrop k s).
+  if k <? 0 then Err SBDF_ERROR_IO else Ok (tt, drop_z s k).
 
 Definition read_int8 : R Z := fun s =>
   match s with
@@ -157,6 +157,7 @@ Definition write_string (s : list Z) : W unit :=
 Definition read_string : R (list Z) :=
   l <-r read_int32 ;;
   if l <? 0 then rfail SBDF_ERROR_INVALID_SIZE else
+  if l =? INT_MAX then rfail SBDF_ERROR_OUT_OF_MEMORY else     (* no room for the terminator *)
   ralloc (l + 5) ;;r
   fread_bytes l.
 
